@@ -181,25 +181,25 @@ structure Good (req : K → List K) (known ks vis out : List K) : Prop where
 
 /-- How a traversal step changes the state: `visited` grows, `out` is extended at the end, and
 the set `visited \ out` of keys in progress is unchanged. -/
-structure Ext (s s' : List K × List K) : Prop where
+structure DfsExt (s s' : List K × List K) : Prop where
   vis_sub : ∀ x ∈ s.1, x ∈ s'.1
   out_pre : ∃ e, s'.2 = s.2 ++ e
   inprog : ∀ x ∈ s'.1, x ∉ s'.2 → x ∈ s.1
   fresh : ∀ x ∈ s'.2, x ∉ s.2 → x ∉ s.1
 
 omit [DecidableEq K] in
-theorem Ext.refl (s : List K × List K) : Ext s s :=
+theorem DfsExt.refl (s : List K × List K) : DfsExt s s :=
   ⟨fun _ h => h, ⟨[], (List.append_nil _).symm⟩, fun _ h _ => h, fun _ h h' => absurd h h'⟩
 
 omit [DecidableEq K] in
-theorem Ext.out_sub {s s' : List K × List K} (h : Ext s s') : ∀ x ∈ s.2, x ∈ s'.2 := by
+theorem DfsExt.out_sub {s s' : List K × List K} (h : DfsExt s s') : ∀ x ∈ s.2, x ∈ s'.2 := by
   obtain ⟨e, he⟩ := h.out_pre
   intro x hx
   rw [he]
   exact List.mem_append_left _ hx
 
 omit [DecidableEq K] in
-theorem Ext.trans {s s' s'' : List K × List K} (h1 : Ext s s') (h2 : Ext s' s'') : Ext s s'' := by
+theorem DfsExt.trans {s s' s'' : List K × List K} (h1 : DfsExt s s') (h2 : DfsExt s' s'') : DfsExt s s'' := by
   refine ⟨fun x hx => h2.vis_sub x (h1.vis_sub x hx), ?_, ?_, ?_⟩
   · obtain ⟨e1, he1⟩ := h1.out_pre
     obtain ⟨e2, he2⟩ := h2.out_pre
@@ -237,7 +237,7 @@ theorem dfs_spec (req : K → List K) (known ks : List K) (rank : K → Nat)
     ∀ (n : Nat) (k : K) (s : List K × List K), rank k < n → Needed req known ks k →
       Good req known ks s.1 s.2 → (∀ x ∈ s.1, x ∉ s.2 → rank k < rank x) →
       Good req known ks (dfs req known n k s).1 (dfs req known n k s).2 ∧
-        Ext s (dfs req known n k s) ∧ k ∈ (dfs req known n k s).2 := by
+        DfsExt s (dfs req known n k s) ∧ k ∈ (dfs req known n k s).2 := by
   intro n
   induction n with
   | zero => intro k s h; omega
@@ -247,12 +247,12 @@ theorem dfs_spec (req : K → List K) (known ks : List K) (rank : K → Nat)
           ∀ x ∈ s.1, x ∉ s.2 → rank r < rank x) →
         Good req known ks s.1 s.2 →
         Good req known ks (dfsList req known n rs s).1 (dfsList req known n rs s).2 ∧
-          Ext s (dfsList req known n rs s) ∧ ∀ r ∈ rs, r ∈ (dfsList req known n rs s).2 := by
+          DfsExt s (dfsList req known n rs s) ∧ ∀ r ∈ rs, r ∈ (dfsList req known n rs s).2 := by
       intro rs
       induction rs with
       | nil =>
         intro s _ hg
-        exact ⟨hg, Ext.refl s, fun r hr => absurd hr (List.not_mem_nil)⟩
+        exact ⟨hg, DfsExt.refl s, fun r hr => absurd hr (List.not_mem_nil)⟩
       | cons r rs ihrs =>
         intro s hr hg
         obtain ⟨hr1, hr2, hr3⟩ := hr r (List.mem_cons_self ..)
@@ -271,7 +271,7 @@ theorem dfs_spec (req : K → List K) (known ks : List K) (rank : K → Nat)
     intro k s hk hnk hg hprog
     by_cases hv : k ∈ s.1
     · rw [dfs_succ_mem req known n k s hv]
-      refine ⟨hg, Ext.refl s, ?_⟩
+      refine ⟨hg, DfsExt.refl s, ?_⟩
       apply Classical.byContradiction
       intro hko
       exact Nat.lt_irrefl _ (hprog k hv hko)
